@@ -11,3 +11,15 @@ claim("C07",
 claim("C18",
  "Proved: Config.Froze sets exactly the documented option bit(s) for each of the Config switches and no other bit; every Encoder/Decoder setter changes exactly its bit; option constants agree across api/consts/alg/native-types layers and are pairwise distinct.",
  "The effect of each bit inside generated code/native routines (what the flag does once tested) is not reached; only the wiring is proved.")
+claim("C04",
+ "Partial. Proved: the encoder value stack (vars.Stack Push/Pop/Save/Drop/Load) fails exactly when MaxStack states are in use and never writes outside its array (the guard that turns cyclic data into an error); alg.IsValidNumber never panics and terminates on every string; alg.Valid's single-value rule.",
+ "Round trip through generated encoder code and native float/quote routines is not reached; only Go-side guards are proved.")
+claim("C11",
+ "Partial. Proved for the alternative decoder's Go functors: integer functors i8..u64 accept exactly the integer tokens whose value fits the width, store the value without wrapping or truncation, leave the destination untouched on null and on error; AsI64/AsU64/AsByte boundaries. The native DOM accessors are assumed pure functions of the node.",
+ "No relational proof against the JIT decoder (generated code is out of reach); native parse_with_padding assumed; map/slice/struct/interface functors not yet under contract.")
+claim("C13",
+ "Narrow. Proved: useSSE/useAVX2 fill every slot of the dispatch table with the same-named routine of their own ISA package (no crossed or mixed wires), both fill the same set, init selects AVX2 iff cpu.HasAVX2 else SSE else panics.",
+ "Equivalence of the two machine-code bodies is outside the reach of a Go verifier and is not claimed; <pkg>.Use (installation of the text) is an assumed contract.")
+claim("C19",
+ "Partial. Proved: integer width handling of the optdec functors (range checks per width, exact narrowing, unsigned/signed boundary at MaxInt64, AsByte), ParseU64 against strconv; alg.IsValidNumber safety.",
+ "Float parsing/printing and integer accumulation are native code (not reached); JIT range-check emission parameters not yet covered.")
